@@ -248,6 +248,17 @@ def one_case(ctx, li, spec, ops, lang, operators, tree, text, ninputs, opdecls):
             bad = check_annotations(tree, e, lang, spec, ops)
         if bad:
             ctx.fail(f"{text!r}: {bad}", {"check": bad.split(":")[0]}, replay)
+    if ctx.rng.random() < 0.25:
+        # the same text with `fix=False` (application outputs are not fixed as they are built; Expr.fix at the end): still every node well typed
+        obs2, ex2, e2, _ = X.obs_typed(lang, text, ninputs, ops, apply_fix=False)
+        ctx.case(f"(texprf {ninputs} T F {G.str_sexp(text)})", obs2, {"lang": spec.to_json(), "text": text, "inputs": ninputs, "apply_fix": False},
+            nontrivial=nontrivial, key=(li, text, "nofix"))
+        ctx.count("parsed_without_apply_fix")
+        if e2 is not None:
+            bad = check_tree(e2, spec, ops, operators)
+            if bad:
+                ctx.fail(f"{text!r} parsed with fix=False: {bad}", {"check": bad.split(":")[0], "apply_fix": False},
+                    {"lang": spec.to_json(), "opdecls": [[n, s] for n, s in opdecls], "text": text, "inputs": ninputs, "apply_fix": False})
 
 
 def rejection_family(ctx, li, spec, ops):
@@ -321,7 +332,7 @@ def replay(ctx, payload):
     opdecls = inp["opdecls"]
     opdecls = [(n, fix_schema(s)) for n, s in opdecls]
     lang, operators = X.build_typed_language(spec, ops, opdecls)
-    obs, ex, e, _ = X.obs_typed(lang, inp["text"], inp["inputs"], ops)
+    obs, ex, e, _ = X.obs_typed(lang, inp["text"], inp["inputs"], ops, apply_fix=inp.get("apply_fix", True))
     print(repr(inp["text"]), "->", obs)
     if e is None:
         return True
